@@ -16,7 +16,7 @@ RULE = ("pmf kernel: every (N,K,n,k) with N <= bound (quick 22, thorough 48) exh
         "admissible target plus inadmissible ones (larger, zero, other dimensionality), random integer data, tolerance "
         "1e-9 * sum|x|; one-axis sizes up to 4001 with finite output required; laws on the implementation: two-step = "
         "direct, same shape = identity, mass, commute with marginalization; CLI --project-shape and -p. non-trivial = "
-        "a successful projection to a strictly smaller shape / a pmf value strictly between 0 and 1; inadmissible targets too large to allocate (2^64-1, 2^62, 1e13 per axis) through the binary")
+        "a successful projection to a strictly smaller shape / a pmf value strictly between 0 and 1; inadmissible targets too large to allocate (2^64-1, 2^62, 1e13 per axis) through the binary; all-zero and zero-sum spectra")
 
 
 def fmt(l):
@@ -81,6 +81,15 @@ def project_cases(tier, rng):
             cs.append("project %s %s %s" % (fmt(sh), fmt(data), fmt(to)))
         neg = [-abs(x) - 1 for x in data]
         cs.append("project %s %s %s" % (fmt(sh), fmt(neg), fmt(sh)))
+    # spectra whose entries sum to zero - all of them zero (a region without sites), or positive and negative ones that cancel:
+    # the projection of zero is zero, of a zero-sum spectrum a zero-sum spectrum; nothing divides by the total
+    for sh in [s_ for s_ in shapes if 2 <= elements(s_) <= 40][:: 5]:
+        half = [rng.randrange(1, 100) for _ in range(elements(sh) // 2)]
+        zsum = half + [-x for x in half] + ([0] if elements(sh) % 2 else [])
+        rng.shuffle(zsum)
+        for data in ([0] * elements(sh), zsum):
+            for to in [tuple(sh), tuple(max(1, n - 1) for n in sh), tuple(1 for _ in sh), tuple(rng.randrange(1, n + 1) for n in sh)]:
+                cs.append("project %s %s %s" % (fmt(sh), fmt(data), fmt(to)))
     return cs
 
 
@@ -284,6 +293,31 @@ def check(rep, tier, seed):
             rep.fail(kind="cli-vs-model", cls="project:cli", argv=case["argv"], stdin=case["stdin"], case=None,
                      observed={"rc": rc, "stdout": so.decode(errors="replace")[:400], "stderr": se.decode(errors="replace")[:300]},
                      expected=m, detail="sfs view projection output differs from the proved model's value beyond 0.5e-6 + 1e-9*sum|x|")
+    # an entry near the top of the f64 range at a size where some coefficients of the projection are subnormal (1200 -> 600
+    # chromosomes): entry * coefficient is an ordinary number again - every output entry compared RELATIVELY with the exact value
+    from math import comb as _comb
+    hjobs = []
+    for n_h, m_h, k_h in ((1200, 600, 600), (1100, 540, 500)):
+        vals_h = ["0"] * (n_h + 1); vals_h[k_h] = "1e308"
+        hjobs.append((["view", "--precision", "30", "--project-shape", str(m_h + 1)], text_spectrum([n_h + 1], vals_h), n_h, m_h, k_h))
+    for (argv_h, txt_h, n_h, m_h, k_h), (rc, so, se) in zip(hjobs, run_cli_many([(a, b) for a, b, _, _, _ in hjobs], timeout=300)):
+        rep.count("project-huge-entry", "%d -> %d chromosomes, x[%d] = 1e308" % (n_h, m_h, k_h), True)
+        p_h = parse_text_spectrum(so)
+        bad_h = None
+        if rc != 0 or p_h is None or len(p_h[1]) != m_h + 1:
+            bad_h = "no output"
+        else:
+            den = _comb(n_h, m_h)
+            for j_ in range(m_h + 1):
+                want_h = Fraction(10**308) * Fraction(_comb(k_h, j_) * _comb(n_h - k_h, m_h - j_), den)
+                if want_h >= Fraction(1, 10**9):
+                    got_h = frac_to_dec(p_h[1][j_])
+                    if isinstance(got_h, str) or abs(got_h - want_h) > want_h * Fraction(1, 10**6):
+                        bad_h = "entry %d: %s, expected about %.6e" % (j_, p_h[1][j_][:40], float(want_h)); break
+        if bad_h:
+            rep.fail(kind="property-oracle", cls="project:huge-entry", case="view --project-shape %d on shape %d with x[%d] = 1e308" % (m_h + 1, n_h + 1, k_h), argv=["sfs"] + argv_h,
+                     observed=bad_h, expected="x[k] * Hypergeom(j; n, k, m) for every j (exact binomials), relative 1e-6",
+                     detail="a huge entry times a tiny (subnormal) coefficient of the projection is lost or wrong")
     rep.assumptions += ["theorems are in exact arithmetic; the f64 kernel (floor(0.5+exp(ln n! - ln k! - ln (n-k)!)), Lanczos ln-gamma "
                         "above 170!) is compared with the exact pmf within 1e-9 (relative to sum|x| for spectra); no theorem about exp/ln",
                         "finite results for finite input are asserted on the implementation for sizes up to 4001"]
